@@ -82,10 +82,11 @@ func (s *Store) InsertLogs(ctx context.Context, logs ...*ledger.ChainedLog) erro
 		}
 		ids[l.ID.String()] = true
 	}
+	// the real store serialises every entry inside this call: what is persisted is the content at this instant, whatever
+	// the engine does to the objects afterwards
 	cp := make([]*ledger.ChainedLog, len(logs))
 	for i, l := range logs {
-		c := *l
-		cp[i] = &c
+		cp[i] = deepCopyLog(l)
 	}
 	s.Logs = append(s.Logs, cp...)
 	s.Batches = append(s.Batches, cp)
@@ -298,4 +299,67 @@ func (s *Store) GetTransaction(ctx context.Context, txID *big.Int) (*ledger.Tran
 		return cpTx(t), nil
 	}
 	return nil, sqlutils.ErrNotFound
+}
+
+func cpBig(n *big.Int) *big.Int {
+	if n == nil {
+		return nil
+	}
+	return new(big.Int).Set(n)
+}
+
+func deepTx(t *ledger.Transaction) *ledger.Transaction {
+	if t == nil {
+		return nil
+	}
+	c := *t
+	c.ID = cpBig(t.ID)
+	c.Metadata = cpMeta(t.Metadata)
+	if t.Metadata == nil {
+		c.Metadata = nil
+	}
+	c.Postings = make(ledger.Postings, len(t.Postings))
+	for i, p := range t.Postings {
+		c.Postings[i] = ledger.Posting{Source: p.Source, Destination: p.Destination, Asset: p.Asset, Amount: cpBig(p.Amount)}
+	}
+	if t.Postings == nil {
+		c.Postings = nil
+	}
+	return &c
+}
+
+func cpTarget(v any) any {
+	if n, ok := v.(*big.Int); ok {
+		return cpBig(n)
+	}
+	return v
+}
+
+// deepCopyLog: a copy that shares no mutable object with the original
+func deepCopyLog(l *ledger.ChainedLog) *ledger.ChainedLog {
+	c := *l
+	c.ID = cpBig(l.ID)
+	c.Hash = append([]byte(nil), l.Hash...)
+	switch p := l.Data.(type) {
+	case ledger.NewTransactionLogPayload:
+		am := ledger.AccountMetadata(nil)
+		if p.AccountMetadata != nil {
+			am = ledger.AccountMetadata{}
+			for k, v := range p.AccountMetadata {
+				am[k] = cpMeta(v)
+			}
+		}
+		c.Data = ledger.NewTransactionLogPayload{Transaction: deepTx(p.Transaction), AccountMetadata: am}
+	case ledger.RevertedTransactionLogPayload:
+		c.Data = ledger.RevertedTransactionLogPayload{RevertedTransactionID: cpBig(p.RevertedTransactionID), RevertTransaction: deepTx(p.RevertTransaction)}
+	case ledger.SetMetadataLogPayload:
+		md := cpMeta(p.Metadata)
+		if p.Metadata == nil {
+			md = nil
+		}
+		c.Data = ledger.SetMetadataLogPayload{TargetType: p.TargetType, TargetID: cpTarget(p.TargetID), Metadata: md}
+	case ledger.DeleteMetadataLogPayload:
+		c.Data = ledger.DeleteMetadataLogPayload{TargetType: p.TargetType, TargetID: cpTarget(p.TargetID), Key: p.Key}
+	}
+	return &c
 }
